@@ -198,9 +198,10 @@ class Packet(_with_metaclass(bisturi.packet_builder.MetaPacket, object)):
         return True
 
     def _names_of_fields_with_value(self):
-        # the moves (at/shift/aligned) and Em hold no value
+        # the moves (at/shift/aligned) and Em hold no value and a described
+        # field is seen through its descriptor, not through its hidden slot
         return [
-            name for name, f, _, _ in self.get_fields()
+            f.descriptor_name or name for name, f, _, _ in self.get_fields()
             if not f.holds_no_value
         ]
 
